@@ -88,11 +88,20 @@ pub struct RunOpts {
     /// when this text appears on stdout, stop the process (SIGSTOP) for that many seconds, then
     /// continue it: lets wall-clock driven code (the 10 s progress line) run on a small chain
     pub pause_on: Option<(String, f64)>,
+    /// shift the process's wall clock by this many seconds (LD_PRELOAD shim tools/vpclock.c; ignored when the shim
+    /// was not built): the result of a run must not depend on when it happens
+    pub clock_offset: Option<i64>,
+}
+
+/// the clock shim built by `vp setup` (None when it is missing)
+pub fn clock_lib() -> Option<PathBuf> {
+    let p = std::env::var("VP_CLOCK_LIB").map(PathBuf::from).unwrap_or_else(|_| PathBuf::from("/verif/.cache/libvpclock.so"));
+    if p.exists() { Some(p) } else { None }
 }
 
 impl RunOpts {
     pub fn new(coin: Coin, callback: Callback) -> RunOpts {
-        RunOpts { coin, start: None, end: None, verify: false, callback, threads: None, fsize: None, nofile: None, pin: false, inject: None, trace: None, trace_paths: vec![], timeout_s: std::env::var("VP_TIMEOUT").ok().and_then(|v| v.parse().ok()).unwrap_or(90), verbose: 0, path_style: 0, bin: None, pause_on: None }
+        RunOpts { coin, start: None, end: None, verify: false, callback, threads: None, fsize: None, nofile: None, pin: false, inject: None, trace: None, trace_paths: vec![], timeout_s: std::env::var("VP_TIMEOUT").ok().and_then(|v| v.parse().ok()).unwrap_or(90), verbose: 0, path_style: 0, bin: None, pause_on: None, clock_offset: None }
     }
 }
 
@@ -349,6 +358,10 @@ fn run_tool_once(datadir: &Path, dump: &Path, o: &RunOpts) -> Result<RunOut, Str
         _ => {
             cmd.env("TZ", "YYY+11:30");
         }
+    }
+    if let (Some(off), Some(lib)) = (o.clock_offset, clock_lib()) {
+        cmd.env("LD_PRELOAD", lib.display().to_string());
+        cmd.env("VP_CLOCK_OFFSET", off.to_string());
     }
     cmd.env_remove("RUST_LOG");
     cmd.env("RUST_BACKTRACE", "0");
